@@ -268,8 +268,13 @@ func ToDate(ctx *expr.Context, input system.Collection, args ...expr.Expression)
 	case system.Date:
 		return system.Collection{value}, nil
 	case system.DateTime:
-		dt := value.String()
-		result := system.MustParseDate(dt[:10])
+		// Keep the date part, whatever the precision of the DateTime is
+		// (a partial DateTime such as @2020T has fewer than 10 characters).
+		dt, _, _ := strings.Cut(value.String(), "T")
+		result, err := system.ParseDate(dt)
+		if err != nil {
+			return system.Collection{}, nil
+		}
 		return system.Collection{result}, nil
 	case system.String:
 		result, err := system.ParseDate(string(value))
@@ -475,12 +480,33 @@ func ToQuantity(ctx *expr.Context, input system.Collection, args ...expr.Express
 				return nil, err
 			}
 			res := strings.SplitN(conversion, " ", 2)
-			result := system.MustParseQuantity(res[0], res[1])
+			if len(res) != 2 {
+				return system.Collection{}, nil
+			}
+			result, err := system.ParseQuantity(res[0], res[1])
+			if err != nil {
+				return system.Collection{}, nil
+			}
 			return system.Collection{result}, nil
 		}
 		res := strings.SplitN(string(value), " ", 2)
-		unit := strings.Trim(res[1], "'")
-		result := system.MustParseQuantity(res[0], unit)
+		number, unit := res[0], DefaultQuantityUnit
+		if len(res) == 2 {
+			unit = strings.Trim(res[1], "'")
+		} else {
+			// No space to split at: the string has no unit at all ('5') or no
+			// space before it ('5mg'); take both from the validation regexp.
+			number = matches[regex.SubexpIndex("value")]
+			if u := matches[regex.SubexpIndex("unit")]; u != "" {
+				unit = u
+			} else if t := matches[regex.SubexpIndex("time")]; t != "" {
+				unit = t
+			}
+		}
+		result, err := system.ParseQuantity(number, unit)
+		if err != nil {
+			return system.Collection{}, nil
+		}
 		return system.Collection{result}, nil
 	case system.Boolean:
 		if value {
